@@ -187,11 +187,6 @@ def families() -> dict[str, Family]:
             L("join#poolA", "join", lambda r: r.join(POOL["A"]).on_field("z")),
             L("join#poolB", "join", lambda r: r.join(POOL["B"]).on_field("z")),
             L("from_#poolC", "from_", lambda r: r.from_(POOL["C"])),
-            # the shared subqueries used where NO alias is given to them (select list, IN operand): a later join / from_ of the same object tags it
-            # (C15 only, "!c15": in C01 the alias such an object receives later shows in the earlier statement that holds it - the permitted side
-            #  effect on the ARGUMENT seen through another object - and would need an exemption of its own)
-            L("select#poolA!c15", "select", lambda r: r.select(POOL["A"])),
-            L("where#in-poolB!c15", "where", lambda r: r.where(t1.a.isin(POOL["B"]))),
             # the receiver itself becomes a source / operand of a NEW statement: it may be given the automatic alias (the one permitted side
             # effect on an argument); nothing derived from it earlier may change
             L("wrap#from", "from_", lambda r, Q=Q: Q.from_(_select_only(r)).select("*")),
